@@ -627,7 +627,7 @@ class ISLaSolver:
           :class:`isla.solver.ISLaSolver`.
         """
         if self.timeout_seconds is not None and self.start_time is None:
-            self.start_time = int(time.time())
+            self.start_time = int(time.monotonic())
 
         while self.queue:
             self.step_cnt += 1
@@ -642,7 +642,7 @@ class ISLaSolver:
             #     exit()
 
             if self.timeout_seconds is not None:
-                if int(time.time()) - self.start_time > self.timeout_seconds:
+                if int(time.monotonic()) - self.start_time > self.timeout_seconds:
                     self.logger.debug("TIMEOUT")
                     raise TimeoutError(self.timeout_seconds)
 
@@ -3315,7 +3315,7 @@ class ISLaSolver:
                     self.solutions = []
                     check_state = SolutionState(existential_formula, new_state.tree)
                     heapq.heappush(self.queue, (0, check_state))
-                    self.start_time = int(time.time())
+                    self.start_time = int(time.monotonic())
                     self.timeout_seconds = 2
 
                     try:
